@@ -27,10 +27,12 @@ type C18Case struct {
 	Keys int     `json:"keys"`
 	Ops  []C18Op `json:"ops"`
 	Ser  bool    `json:"ser"`
+	// OddKey: key 0 has an unusual value (empty | blank | path | utf8) instead of "k0"
+	OddKey string `json:"odd_key,omitempty"`
 }
 
 func genC18(t *rapid.T) C18Case {
-	c := C18Case{Keys: rapid.IntRange(1, 8).Draw(t, "keys"), Ser: rapid.Bool().Draw(t, "ser")}
+	c := C18Case{Keys: rapid.IntRange(1, 8).Draw(t, "keys"), Ser: rapid.Bool().Draw(t, "ser"), OddKey: rapid.SampledFrom([]string{"", "", "", "empty", "blank", "path", "utf8"}).Draw(t, "odd_key")}
 	n := rapid.IntRange(1, 40).Draw(t, "nops")
 	stopped := false
 	for i := 0; i < n && !stopped; i++ {
@@ -47,6 +49,7 @@ func genC18(t *rapid.T) C18Case {
 type c18Conn struct {
 	rw       goat.RpcReadWriter
 	key      string
+	keyed    bool // key has been learnt (the key itself may be the empty string)
 	mu       sync.Mutex
 	got      []uint64
 	changed  []uint64 // ids whose envelope did not arrive as it was fed
@@ -116,8 +119,8 @@ func execC18(t *testing.T, c C18Case) (v Verdict) {
 					return
 				}
 				cn.mu.Lock()
-				if cn.key == "" {
-					cn.key = r.GetHeader().GetSource()
+				if !cn.keyed {
+					cn.key, cn.keyed = r.GetHeader().GetSource(), true
 					mu.Lock()
 					live[cn.key] = cn
 					if pauseNext[cn.key] {
@@ -188,7 +191,14 @@ func execC18(t *testing.T, c C18Case) (v Verdict) {
 		}
 		tok := uint64(0)
 		var wrote []uint64 // ids written on logical connections, in order
-		keyName := func(k int) string { return fmt.Sprintf("k%d", k) }
+		// key values: ordinary names, and - for key 0 of some cases - values a key function may well return: the empty
+		// string, a blank, a name with separators, non-ASCII
+		keyName := func(k int) string {
+			if k == 0 && c.OddKey != "" {
+				return map[string]string{"empty": "", "blank": " ", "path": "a/b:c", "utf8": "клиент-0"}[c.OddKey]
+			}
+			return fmt.Sprintf("k%d", k)
+		}
 		stopped := false
 		for _, op := range c.Ops {
 			k := keyName(op.Key)
@@ -352,7 +362,7 @@ func execC18(t *testing.T, c C18Case) (v Verdict) {
 		byKey := map[string][]*c18Conn{}
 		for _, cn := range all {
 			cn.mu.Lock()
-			if cn.key != "" {
+			if cn.keyed {
 				byKey[cn.key] = append(byKey[cn.key], cn)
 			}
 			cn.mu.Unlock()
@@ -398,7 +408,7 @@ func execC18(t *testing.T, c C18Case) (v Verdict) {
 		}
 		for _, cn := range all {
 			cn.mu.Lock()
-			if cn.key == "" && len(cn.got) > 0 {
+			if !cn.keyed && len(cn.got) > 0 {
 				v.failf("a connection received envelopes without a key")
 			}
 			// (cn.blamed - a Read that fails with a context error although its own context is alive - is recorded but not
